@@ -15,3 +15,4 @@ def check(ctx, prog):
     process.rule_keepbest(ctx, prog)
     model.rule_optional_zero(ctx, prog)
     branching.check_choice_points(ctx, prog)  # scope: cp_init only (what a restart re-establishes)
+    optimize.rule_optional_result(ctx, prog)
